@@ -434,4 +434,178 @@ theorem sum_incoming_addLink (tbl : List (NNodeS W)) (l : NLink W) (h : l.dst < 
         omega
   exact h1 tbl l.dst h
 
+theorem length_addLink (tbl : List (NNodeS W)) (l : NLink W) : (addLink tbl l).length = tbl.length := by
+  unfold addLink; simp
+
+theorem geneLink_lt {nodes : List Node} {x : Gene W} {l : NLink W} (h : geneLink nodes x = some l) :
+    l.src < nodes.length ∧ l.dst < nodes.length := by
+  obtain ⟨h1, h2, _, _⟩ := geneLink_some h
+  have a := idxOf_some h1
+  have b := idxOf_some h2
+  constructor
+  · cases hg : nodes[l.src]? with
+    | none => simp [hg] at a
+    | some n => exact (List.getElem?_eq_some_iff.mp hg).1
+  · cases hg : nodes[l.dst]? with
+    | none => simp [hg] at b
+    | some n => exact (List.getElem?_eq_some_iff.mp hg).1
+
+/-- every enabled gene adds exactly one incoming link -/
+theorem linkGenes_sum (nodes : List Node) (genes : List (Gene W)) :
+    ∀ (tbl tbl' : List (NNodeS W)), tbl.length = nodes.length → linkGenes nodes genes tbl = .ok tbl' →
+      tbl'.length = nodes.length ∧
+      (tbl'.map fun nd => nd.incoming.length).sum = (tbl.map fun nd => nd.incoming.length).sum + (genes.filter (·.en)).length := by
+  induction genes with
+  | nil => intro tbl tbl' hlen h; simp only [linkGenes, Except.ok.injEq] at h; subst h; simp [hlen]
+  | cons x gs ih =>
+    intro tbl tbl' hlen h
+    unfold linkGenes at h
+    cases hen : x.en with
+    | false =>
+      simp only [hen, Bool.not_false, ↓reduceIte] at h
+      simpa [List.filter_cons, hen] using ih tbl tbl' hlen h
+    | true =>
+      simp only [hen, Bool.not_true, Bool.false_eq_true, ↓reduceIte] at h
+      cases hl : geneLink nodes x with
+      | none => simp [hl] at h
+      | some l =>
+        simp only [hl] at h
+        have hlt := (geneLink_lt hl).2
+        obtain ⟨h1, h2⟩ := ih (addLink tbl l) tbl' (by rw [length_addLink, hlen]) h
+        refine ⟨h1, ?_⟩
+        rw [h2, sum_incoming_addLink tbl l (by omega)]
+        simp [List.filter_cons, hen]
+        omega
+
+theorem wireLinks_length {nodes : List Node} {c : Nat} {inc : Bool} (ws : List (Wire W)) :
+    ∀ ls, wireLinks nodes c inc ws = .ok ls → ls.length = ws.length := by
+  induction ws with
+  | nil => intro ls h; simp only [wireLinks, Except.ok.injEq] at h; subst h; rfl
+  | cons w ws ih =>
+    intro ls h
+    unfold wireLinks at h
+    cases hk : idxOf nodes w.node with
+    | none => simp [hk] at h
+    | some k =>
+      cases hrec : wireLinks nodes c inc ws with
+      | error e => simp [hk, hrec] at h
+      | ok ls' =>
+        simp only [hk, hrec, Except.ok.injEq] at h
+        subst h
+        simp [ih ls' hrec]
+
+theorem ctrlNodes_sum (nodes : List Node) (mods : List (Module W)) :
+    ∀ (next : Nat) (cs : List (NNodeS W)), ctrlNodes nodes mods next = .ok cs →
+      cs.length = (mods.filter (·.en)).length ∧
+      (cs.map fun cn => cn.incoming.length + cn.outgoing.length).sum =
+        ((mods.filter (·.en)).map fun m => m.ins.length + m.outs.length).sum := by
+  induction mods with
+  | nil => intro next cs h; simp only [ctrlNodes, Except.ok.injEq] at h; subst h; simp
+  | cons m ms ih =>
+    intro next cs h
+    unfold ctrlNodes at h
+    cases hen : m.en with
+    | false =>
+      simp only [hen, Bool.not_false, ↓reduceIte] at h
+      simpa [List.filter_cons, hen] using ih next cs h
+    | true =>
+      simp only [hen, Bool.not_true, Bool.false_eq_true, ↓reduceIte] at h
+      cases hin : wireLinks nodes next true m.ins with
+      | error e => simp [hin] at h
+      | ok ins =>
+        cases hout : wireLinks nodes next false m.outs with
+        | error e => simp [hin, hout] at h
+        | ok outs =>
+          cases hrec : ctrlNodes nodes ms (next + 1) with
+          | error e => simp [hin, hout, hrec] at h
+          | ok cs' =>
+            simp only [hin, hout, hrec, Except.ok.injEq] at h
+            subst h
+            obtain ⟨h1, h2⟩ := ih (next + 1) cs' hrec
+            simp [List.filter_cons, hen, h1, h2, wireLinks_length _ _ hin, wireLinks_length _ _ hout]
+
+/-- `NodeCount`, `LinkCount`, `Complexity` of an expressed network: for EVERY genome `Genesis` accepts -/
+theorem genesis_counts' {g : Genome W} {netId : Int} {net : Net W} (h : genesis g netId = .ok net) :
+    nodeCount net = g.nodes.length + (g.modules.filter (·.en)).length ∧
+    linkCount net = (g.genes.filter (·.en)).length +
+      ((g.modules.filter (·.en)).map fun m => m.ins.length + m.outs.length).sum := by
+  obtain ⟨tbl, cs, hl, hc, rfl, _, _⟩ := genesis_ok h
+  obtain ⟨h1, h2⟩ := linkGenes_sum g.nodes g.genes _ tbl (by simp) hl
+  obtain ⟨h3, h4⟩ := ctrlNodes_sum g.nodes g.modules _ cs hc
+  unfold nodeCount linkCount
+  simp only [h1, h3, h2, h4]
+  have : ((g.nodes.map (copyNode (W := W))).map fun nd => nd.incoming.length).sum = 0 := by
+    induction g.nodes with
+    | nil => rfl
+    | cons a l ih => simpa [copyNode] using ih
+  rw [this]
+  simp
+
+/-! ### a well-formed genome with genes and an output is always expressed -/
+
+theorem linkGenes_total {nodes : List Node} (genes : List (Gene W))
+    (hg : ∀ x ∈ genes, x.src ∈ nodes.map (·.id) ∧ x.dst ∈ nodes.map (·.id)) :
+    ∀ tbl, ∃ tbl', linkGenes nodes genes tbl = .ok tbl' := by
+  induction genes with
+  | nil => intro tbl; exact ⟨tbl, rfl⟩
+  | cons x gs ih =>
+    intro tbl
+    have ih' := ih (fun y hy => hg y (by simp [hy]))
+    unfold linkGenes
+    cases hen : x.en with
+    | false => simpa using ih' tbl
+    | true =>
+      obtain ⟨l, hl⟩ := geneLink_of_mem (hg x (by simp)).1 (hg x (by simp)).2
+      simpa [hl] using ih' (addLink tbl l)
+
+theorem wireLinks_total {nodes : List Node} (c : Nat) (inc : Bool) (ws : List (Wire W))
+    (hw : ∀ w ∈ ws, w.node ∈ nodes.map (·.id)) : ∃ ls, wireLinks nodes c inc ws = .ok ls := by
+  induction ws with
+  | nil => exact ⟨[], rfl⟩
+  | cons w ws ih =>
+    obtain ⟨ls, hls⟩ := ih (fun y hy => hw y (by simp [hy]))
+    obtain ⟨k, hk⟩ := idxOf_of_mem (hw w (by simp))
+    unfold wireLinks
+    simp [hk, hls]
+
+theorem ctrlNodes_total {nodes : List Node} (mods : List (Module W))
+    (hm : ∀ m ∈ mods, (∀ w ∈ m.ins, w.node ∈ nodes.map (·.id)) ∧ (∀ w ∈ m.outs, w.node ∈ nodes.map (·.id))) :
+    ∀ next, ∃ cs, ctrlNodes nodes mods next = .ok cs := by
+  induction mods with
+  | nil => intro next; exact ⟨[], rfl⟩
+  | cons m ms ih =>
+    intro next
+    have ih' := ih (fun y hy => hm y (by simp [hy]))
+    unfold ctrlNodes
+    cases hen : m.en with
+    | false => simpa using ih' next
+    | true =>
+      obtain ⟨ins, hin⟩ := wireLinks_total next true m.ins (hm m (by simp)).1
+      obtain ⟨outs, hout⟩ := wireLinks_total next false m.outs (hm m (by simp)).2
+      obtain ⟨cs, hcs⟩ := ih' (next + 1)
+      simp [hin, hout, hcs]
+
+theorem genesis_total {g : Genome W} (hok : Ok g) (netId : Int) (hg : g.genes.isEmpty = false)
+    (ho : g.nodes.any (fun n => n.kind == Kind.output) = true) : ∃ net, genesis g netId = .ok net := by
+  obtain ⟨tbl, hl⟩ := linkGenes_total g.genes hok.genes (g.nodes.map copyNode)
+  obtain ⟨cs, hc⟩ := ctrlNodes_total g.modules hok.wires g.nodes.length
+  have hpos : (positions (fun n => n.kind == Kind.output) g.nodes 0).isEmpty = false := by
+    have key : ∀ (l : List Node) (k : Nat), l.any (fun n => n.kind == Kind.output) = true →
+        (positions (fun n => n.kind == Kind.output) l k).isEmpty = false := by
+      intro l
+      induction l with
+      | nil => intro k h; simp at h
+      | cons a l ih =>
+        intro k h
+        unfold positions
+        cases ha : (a.kind == Kind.output) with
+        | true => simp
+        | false =>
+          simp only [Bool.false_eq_true, ↓reduceIte]
+          apply ih
+          simpa [ha] using h
+    exact key g.nodes 0 ho
+  unfold genesis
+  simp [hg, hpos, hl, hc]
+
 end GoNeat.Genesis
